@@ -106,7 +106,17 @@ func buildStoreConfig(c *sim.RunCtx, s *rt.Sched, cfg *storeCfg, m *media, proc 
 	me := s.Cur()
 	prevProc := me.Proc
 	me.Proc = proc
-	info, err := configuration.NewBlobAccessFromConfiguration(e.group, &pb.BlobAccessConfiguration{Backend: &pb.BlobAccessConfiguration_Local{Local: l}},
+	top := &pb.BlobAccessConfiguration{Backend: &pb.BlobAccessConfiguration_Local{Local: l}}
+	if cfg.ExistCache {
+		// a decorator that keys by the digest key format the local backend
+		// announces (BlobAccessInfo.DigestKeyFormat)
+		top = &pb.BlobAccessConfiguration{Backend: &pb.BlobAccessConfiguration_ExistenceCaching{ExistenceCaching: &pb.ExistenceCachingBlobAccessConfiguration{
+			Backend:        top,
+			ExistenceCache: &digest_pb.ExistenceCacheConfiguration{CacheSize: 64, CacheDuration: durationpb.New(1000 * time.Second), CacheReplacementPolicy: eviction_pb.CacheReplacementPolicy_LEAST_RECENTLY_USED},
+		}}}
+		c.Count("probe_wconfig_existence_cache", 1)
+	}
+	info, err := configuration.NewBlobAccessFromConfiguration(e.group, top,
 		configuration.NewCASBlobAccessCreator(nil, 1<<20, nil))
 	me.Proc = prevProc
 	if err != nil {
@@ -139,4 +149,12 @@ func (e *storeEnv) collectorAllocations() int {
 
 func (e *storeEnv) collectorReleases() int {
 	return int(counterValue(e.releaseCounter) - e.releaseBase)
+}
+
+// releases: blocks handed back to the allocator since the store was built.
+func (w *storeWorld) releases() int {
+	if w.e.alloc == nil {
+		return w.e.collectorReleases()
+	}
+	return w.e.alloc.Releases
 }
